@@ -16,6 +16,9 @@ views agree); SIDED - the quantile is taken at alpha/2 and the p-value
 doubles the upper tail of |t|; NAN-BOTH - a passing constant replaces the
 statistic only under a conjunction of NaN tests on BOTH datasets; QUAD - the
 error of the difference is sqrt(e1**2 + e2**2).
+SCALE-FREE - the special cases of the statistic are selected by exact
+comparisons with zero, no absolute tolerance (invariance under rescaling);
+VERD-AGG also rejects NaN-unsafe extremum aggregations (builtin min / max).
 Not decided: numerical values of t, quantile, p-value; monotonicity and scale
 invariance as numeric facts.
 '''
